@@ -1,5 +1,6 @@
 /- line-protocol handlers for the C10 models (Model/PackedDeltas.lean, Model/Iup.lean) -/
 import FontVerif.Model.PackedDeltas
+import FontVerif.Model.Iup
 namespace FontVerif.Drv.C10
 open FontVerif FontVerif.PackedDeltas
 
@@ -53,7 +54,43 @@ def handlePacked (cmd : String) (args : List String) : Option String :=
     | _, _ => none
   | _, _ => none
 
+/-- `a,b` pairs -/
+def parsePt? (s : String) : Option (Int × Int) :=
+  match s.splitOn "," with
+  | [a, b] => match parseInt? a, parseInt? b with
+    | some x, some y => some (x, y)
+    | _, _ => none
+  | _ => none
+
+/-- split the argument list at the `|` separators -/
+def splitBar (xs : List String) : List (List String) :=
+  xs.foldr (fun x acc => if x = "|" then [] :: acc else
+    match acc with
+    | [] => [[x]]
+    | a :: rest => (x :: a) :: rest) [[]]
+
+def showFlags (l : List (Int × Int × Bool)) : String :=
+  if l.isEmpty then "-" else
+  " ".intercalate (l.map fun (x, y, r) => s!"{x},{y},{if r then 1 else 0}")
+
+open FontVerif.Iup in
+/-- `iup.opt <tn> <td> | <ends…> | <coords x,y …> | <deltas x,y …>` -/
+def handleIup (cmd : String) (args : List String) : Option String :=
+  match cmd, splitBar args with
+  | "iup.opt", [[tn, td], ends, cs, ds] =>
+    match parseInt? tn, parseInt? td, parseNats? (ends.filter (· ≠ "-")),
+        (cs.filter (· ≠ "-")).mapM parsePt?, (ds.filter (· ≠ "-")).mapM parsePt? with
+    | some tn, some td, some ends, some cs, some ds =>
+      if td ≤ 0 then none else
+      some (match deltaOptimize { n := tn, d := td } ds cs ends with
+        | .ok l => showFlags l
+        | .err e => "err:" ++ e)
+    | _, _, _, _, _ => none
+  | _, _ => none
+
 def handle (cmd : String) (args : List String) : Option String :=
-  handlePacked cmd args
+  match handlePacked cmd args with
+  | some r => some r
+  | none => handleIup cmd args
 
 end FontVerif.Drv.C10
